@@ -51,6 +51,31 @@ func (recFunc) Run(instanceID string, vs parser.Scope, is map[string]interface{}
 
 func (recFunc) DocString() (string, error) { return "records a value for the verification harness", nil }
 
+// StartRecording installs a fresh recorder for t.rec (for checks which drive
+// the interpreter themselves).
+func StartRecording() *Rec {
+	Setup()
+	r := &Rec{}
+	curMu.Lock()
+	current = r
+	curMu.Unlock()
+	return r
+}
+
+// StopRecording removes the recorder.
+func StopRecording() {
+	curMu.Lock()
+	current = nil
+	curMu.Unlock()
+}
+
+// Snapshot returns the recorded values in recording order.
+func (r *Rec) Snapshot() []interface{} {
+	r.mu.Lock()
+	defer r.mu.Unlock()
+	return append([]interface{}(nil), r.Items...)
+}
+
 // Copy deep-copies an ECAL value.
 func Copy(v interface{}) interface{} {
 	switch c := v.(type) {
